@@ -15,6 +15,9 @@ def run(chk):
     from props import backend_conformance
     backend_conformance.run(chk, "C01", names=("block_diag", "kron", "concat", "diag", "canonical", "eye", "cast", "expand", "permute", "moveaxis", "reshape", "conj", "where", "roll", "stack", "zeros_like", "ones_like", "promote_types", "zeros", "ones"))
     chk.assume("the 1e-6 relative rounding error of the float computation is out of reach: exact equality over C is proved")
+    # declaring an annotation rebuilds the operator from its flattened form: same class, same fields (hence the same action), on every constructible kind
+    from props import c18
+    c18.wrapmeta_and_pytree(chk, prop="C01")
     # combinators: every rule of dot/add/mul/kron/kronsum/transpose/adjoint keeps M(r) = the matrix expression ("any nesting depth":
     # each application is one use of the contract); same obligations as C03/C02, M and shape clauses
     from props import c03
